@@ -909,6 +909,20 @@ func runR_C14(c *Ctx) {
 						if sl, ok := as.Rhs[i].(*ast.SliceExpr); ok && canon(sl.X) == id.Name {
 							continue
 						}
+						// a nil set/list replaced by a fresh empty one (under `p == nil`) keeps its role
+						if call, ok := as.Rhs[i].(*ast.CallExpr); ok {
+							if f, ok := call.Fun.(*ast.Ident); ok && f.Name == "make" {
+								underNil := false
+								for _, g := range guardsOf(l.fn.Body, as) {
+									if be, ok := unparen(g.e).(*ast.BinaryExpr); ok && g.pos && be.Op == token.EQL && isNilLit(be.Y) && canon(be.X) == id.Name {
+										underNil = true
+									}
+								}
+								if underNil {
+									continue
+								}
+							}
+						}
 					}
 					issues = append(issues, l.issue(as, "param-rebound", "rebinds the parameter %s (%s): the lists' roles are no longer the ones the specification fixes (result order, which list is searched)", id.Name, rs.src(as)))
 				}
